@@ -4,6 +4,10 @@ Correspondence (three levels, all against the Lean model Exetera/Model/Csv.lean)
   csv_kernel  exetera.core.csv_reader_speedup.fast_csv_reader               vs  Csv.fastCsvReader   (every output incl. both arrays)
   csv_driver  exetera.core.csv_reader_speedup.read_file_using_fast_csv_reader vs  Csv.readFile       (recording importers)
   csv_import  exetera.io.parsers.read_csv_with_schema_dict into an HDF5 frame  vs  Csv.readCsv        (destination fields)
+  csv_typed   the same entry point (or parsers.read_csv with a JSON schema) with schema-typed columns (categorical, leaky,
+              fixed, bool/int/float in three modes, datetime, date) and small chunk_row_size   vs  Csv.readCsv driving the
+              importer models of Model/Transforms.lean, one import_part per kernel call (main fields and _valid, _freetext,
+              _day, _set companions); oracle = checks/harness/c06.py's rendering of Spec/Transforms on the reference cells
 Oracle for the property itself: `parse_ref` below, the Python rendering of Spec/Csv.lean (RFC-4180 records; blanks that
 directly follow a separator or a line break are skipped), cross-checked at generation time against the cell grammar
 (`value`) and Python's csv module."""
@@ -32,7 +36,11 @@ RULE = ("files are rendered from a cell grammar {empty, plain, leading/trailing 
         "(+-1) value budgets (budget 1, 2, 3) - bare, quoted, quoted with the doubled quote on the byte that fills the budget - in "
         "the first / middle / last of three records, 1-2 columns, smallest supported chunk_row_size, the next one and one window; "
         "files whose first windows are filled by records of empty cells (index buffer full) followed by a long cell (both buffers "
-        "grow in one run). The driver op also compares the full flag of every kernel call. Non-trivial = the model made more than one kernel call, "
+        "grow in one run). Typed columns (csv_typed): 240 (quick) / 6000 (thorough) seeded mixed schemas over 9 column kinds x 3 "
+        "validation modes, 1-4 columns, 0-90 rows, cells quoted / blank-led at random, chunk_row_size = smallest supported, +1, "
+        "+0..30 or one window, include/exclude lists, columns missing from the schema, schema given as importer-definition "
+        "dictionary or as JSON schema file, 80% of the cases with acceptable cells only; plus a seed-independent family in which "
+        "windows of empty records fill the index buffer before a long typed cell doubles its value budget. The driver op also compares the full flag of every kernel call. Non-trivial = the model made more than one kernel call, "
         "or the file has a quoted cell or a blank-led cell; distinct = distinct case line.")
 ASSUMPTIONS = [
     "supported regime of the property: every record (and the header line) fits in the byte window 2*chunk_row_size*columns; "
@@ -57,7 +65,15 @@ LEVEL_TEXT = ("Kernel-checked theorems, for all well-formed files of any size, a
               "(re-entry inside the held window with doubled buffers), yields exactly the reference records column by column within "
               "records + 2 + regrowthBound kernel calls (regrowthBound = sum of log2-many doublings per buffer) - so the result "
               "depends neither on chunk_row_size nor on how the buffers had to grow; the same for read_csv_with_schema_dict with the "
-              "budgets it computes; (3) include/exclude select exactly the named columns.")
+              "budgets it computes; (3) include/exclude select exactly the named columns; (4) composition with C06 "
+              "(Props/C0506.lean): the driver invariant and loop are proved for ANY family of importers that are append "
+              "homomorphisms over cell blocks (ImpHom); every importer kind of C06 is one (importer_append_homomorphism: indexed, "
+              "fixed, categorical, leaky categorical with its free-text offsets, bool/int/float in the three validation modes "
+              "with the validity flag, datetime/date with day and set companions), so for ANY schema of such kinds, every "
+              "chunk_row_size of the regime and every regrowth the public entry point returns, for every selected column, C06's "
+              "specification applied to the WHOLE column of cell texts (read_csv_typed_eq_spec: typed import = C06.spec o "
+              "C05.spec), every companion with exactly one entry per record (typed_companions_aligned), provided no selected "
+              "cell is rejected by its importer's validation mode.")
 LEVEL_NOTE = ("window_chunking_unobservable, regrowth_unobservable, chunk_size_unobservable and read_csv_eq_spec are proved at full "
               "strength (hypotheses: well-formed RFC-4180 table with a header line, chunk_row_size > 0, every line fits the byte window "
               "2*chunk_row_size*columns; for the driver-level theorems additionally every starting value budget >= 1, which "
@@ -68,7 +84,16 @@ LEVEL_NOTE = ("window_chunking_unobservable, regrowth_unobservable, chunk_size_u
               "additionally compares, per kernel call of the driver, the full flag returned by the real fast_csv_reader with the "
               "model's (regrowth path), and measures regrowth coverage (regrow-* tags). In the supported regime the index buffer can "
               "fill at most once per import (a window holds at most 2*chunk_row_size records). The model mirrors the code with fix "
-              "patches D26, NC05a, NC05b, D27 applied.")
+              "patches D26, NC05a, NC05b, D27 applied. Typed columns: read_csv_typed_eq_spec assumes C06's own hypotheses on the "
+              "importer definitions (distinct category keys; the number parser rejects blank text and converts str(invalid_value) "
+              "to invalid_value; parsers are data: modelled int() with a dtype range, or a finite text->value table for floats) "
+              "and that every selected cell is acceptable to its importer (cellOK, decided per cell). When a cell is rejected "
+              "only the importer-level half is proved (read_csv_typed_raises_partial: import_part on any block holding a "
+              "rejected cell raises); the lift to the driver loop is open - whether the import raises does not depend on chunk "
+              "boundaries, which of several rejected cells is reported does (first kernel call, then index_map order); the "
+              "correspondence compares the error class on every csv_typed case with a rejected cell. To state the composition "
+              "the kernel lemma now also exports that the reported entries stay strictly inside each column's value budget "
+              "(KernelRes.caps), which is what the leaky importer's free-text staging array of that size needs.")
 TECHNIQUE = "Lean 4 theorems over an executable model + differential correspondence with the real code"
 EXPLANATION = ""
 
